@@ -10,14 +10,31 @@
    byte-exact generator correspondence and judged on the reference machine. *)
 From Coq Require Import ZArith List String Bool.
 From Gigue Require Import Types Bits Isa Enc GenTables Builder BuilderTies Samplers Generator Machine MachineLemmas
-  SplitProofs FragProofs GenLemmas ImageSem CtorSpec C12Defs C12Proofs.
+  SplitProofs FragProofs GenLemmas ImageSem CtorSpec C12Defs C12Proofs GenWF GenWFProps SliceLemmas GenWF2 GenWF3 GenWF2Props Witness.
 Import ListNotations.
 Open Scope Z_scope.
 
 
-(* FULL statement (static part): exactly the requested number of methods. *)
-Definition C05_method_count_statement : Prop :=
-  forall c script img, successful c script img -> zlen (im_methods img) = c_nb_methods c.
+(* PROVED (Layer A) for every accepted configuration, decision script and
+   emitted image: the image contains exactly the requested number of methods *)
+Theorem C05_method_count : forall c script img,
+  successful c script img -> zlen (im_methods img) = c_nb_methods c.
+Proof. exact method_count_exact. Qed.
+
+(* PROVED: depth-0 methods have no callee; every deeper method has exactly its
+   declared number of callees, each with its own disjoint call-site slot
+   holding the call stub (C04_call_sites) *)
+Theorem C05_callee_counts : forall c script img,
+  successful c script img ->
+  Forall (fun m => if m_depth m =? 0 then m_callees m = [] else zlen (m_callees m) = m_calls m) (im_methods img).
+Proof. exact callee_counts_exact. Qed.
+
+Theorem C05_call_sites : forall c script img,
+  successful c script img -> Forall (sites_ok c (im_methods img)) (im_methods img).
+Proof. exact call_sites_exact. Qed.
+
+Theorem C05_nonvacuous : exists img, successful wcfg_base wscript_base img.
+Proof. exact witness_base. Qed.
 
 (* a PIC switch case whose number equals the loaded hit case jumps to its
    method; any other falls to the next case — for ALL admissible register
@@ -55,6 +72,10 @@ Theorem C05_case_count_capped_partial : forall z remaining,
   1 <= z -> 1 <= remaining -> 1 <= Z.min z remaining <= remaining.
 Proof. exact case_cap. Qed.
 
+Print Assumptions C05_method_count.
+Print Assumptions C05_callee_counts.
+Print Assumptions C05_call_sites.
+Print Assumptions C05_nonvacuous.
 Print Assumptions C05_switch_hit_partial.
 Print Assumptions C05_switch_miss_partial.
 Print Assumptions C05_pic_call_loads_hit_partial.
